@@ -15,8 +15,9 @@ def matchH : Handler := fun j => do
   | none => pure (Json.mkObj [("grammar", false)])
   | some p =>
     match p.match? row.toList with
-    | none => pure (Json.mkObj [("grammar", true), ("match", Json.null)])
-    | some ks => pure (Json.mkObj [("grammar", true), ("match", Json.arr (ks.map jchars).toArray)])
+    | none => pure (Json.mkObj [("grammar", true), ("match", Json.null), ("source", jchars (patternSource p))])
+    | some ks => pure (Json.mkObj [("grammar", true), ("match", Json.arr (ks.map jchars).toArray),
+                                    ("source", jchars (patternSource p))])
 
 /-- `{"op":"c07.reverse","pattern":row,"prefix":p}` → template text of patching `_make_reverse` -/
 def reverseH : Handler := fun j => do
